@@ -2,7 +2,9 @@
 """C09 -- strict validation rejects exactly the documents the GraphQL specification calls invalid.
 spec:    spec/gql/Validation.tla: one operator per rule of section 5 (violated clauses), Valid == all empty;
          named deviations of today's implementation as switches (C.dev).
-M:       the generator state machine Gen_ValDoc.tla with its bookkeeping invariants (complete for a small pool).
+M:       MC_Validation.tla: laws of the specification itself over a bounded document family (two formulations of validity
+         agree, deviation switches that drop checks never add clauses, ...); the generator state machine Gen_ValDoc.tla
+         with its bookkeeping invariants (complete for a small pool).
 G1:      TLC enumerates (BFS of Gen_ValDoc.tla, one run over several pool configurations) every document within the
          budgets over name pools that contain undefined fields / types / arguments / directives / fragments /
          variables, wrong argument values, non-input variable types ... so valid and invalid documents arise side by side.
@@ -89,12 +91,20 @@ def body(c):
                         Fields=["a", "id"], OpenOnly=["a"], LeafOnly=["id"], Conds=["A"], Spreads=["F1"], ArgPool=["x=int1"], DirPool=["skip(if=true)"], VarPool=["v|Int||"])}
     mmod = valgen.write_gen_module(c.work, "MC_GenValDoc", mconf, ["TypeOK", "DepthOK", "NoEmptySet"])
     confs = valgen.g1_configs(c.quick)
-    with ThreadPoolExecutor(2) as ex:
+    with ThreadPoolExecutor(3) as ex:
         fm = ex.submit(vlib.run_tlc, mmod, c.path("MC_GenValDoc.cfg"), workers=2, timeout=900, coverage=True, keep_lines=2000)
+        # M (specification): laws of Validation.tla over a bounded family of documents -- two formulations of validity agree,
+        # check-dropping deviation switches never add clauses, the overlap switches are opposites, the merge shortcut is sound
+        fl = ex.submit(vlib.run_tlc, "gql/MC_Validation.tla", "gql/MC_Validation.cfg", env={"SCHEMA": SCHEMA}, workers=2, timeout=900, keep_lines=200)
         fg = ex.submit(run_g1, c, confs)
-        m, (g, g1) = fm.result(), fg.result()
+        m, laws, (g, g1) = fm.result(), fl.result(), fg.result()
     if m.invariant_violated:
         raise vlib.ToolError("design-level failure in Gen_ValDoc.tla: " + str(m.invariant_violated))
+    if laws.invariant_violated:
+        raise vlib.ToolError("design-level failure in Validation.tla: law %s does not hold" % laws.invariant_violated)
+    if laws.distinct < 1000:
+        raise vlib.ToolError("vacuity: MC_Validation examined only %d documents" % laws.distinct)
+    c.add_tlc("M Validation laws (MC_Validation)", laws)
     for act in ("AddField", "AddInline", "AddSpread", "Close", "NewSection"):
         if m.coverage.get("Gen_ValDoc!" + act, (0, 0))[1] == 0:
             raise vlib.ToolError("generator action %s never taken in mode M" % act)
